@@ -18,8 +18,8 @@ PROPS = {
     "C02": dict(units=["comm"], kani=[], level="proof"),
     "C03": dict(units=["comm"], kani=[], level="proof"),
     "C04": dict(units=["comm"], kani=[], level="proof"),
-    "C09": dict(units=["pstate"], kani=[], level="proof"),
-    "C10": dict(units=["pstate"], kani=[], level="proof"),
+    "C09": dict(units=["pstate"], kani=["w_decode_exit_status", "w_waitpid"], level="proof"),
+    "C10": dict(units=["pstate"], kani=["w_kill"], level="proof"),
     "C11": dict(units=["pstate"], kani=[], level="proof"),
 }
 
@@ -52,3 +52,23 @@ UNIT_TRUST = {
         "cfg(windows) helper-thread variant of communicate.rs is NOT covered",
     ],
 }
+
+# --------------------------------------------------------------------------------------------- Kani harnesses
+# name -> what it proves; bounded=<text> marks a bounded stand-in (never counted as proved)
+KANI = {
+    "w_decode_exit_status": dict(about="posix::decode_exit_status against the POSIX/Linux status-word encoding, all 2^32 words", tags=["C09"]),
+    "w_waitpid": dict(about="posix::waitpid = one waitpid(pid,&status,flags); result mapping; ECHILD surfaced; all pids/states/flags/status words", tags=["C09"]),
+    "w_kill": dict(about="posix::kill passes (pid, signal) unchanged, once; SIGTERM/SIGKILL/ECHILD/WNOHANG are libc's", tags=["C10", "C09"]),
+    "w_reset_sigpipe": dict(about="posix::reset_sigpipe: Ok => empty signal mask and SIGPIPE default, for every parent mask", tags=["C18"]),
+    "w_poll_passthrough": dict(about="PollFd layout = libc::pollfd; poll() passes array, length and floor-ms timeout to libc::poll; test() reads revents (R6 seam of the comm unit)", tags=["C01", "C04"]),
+    "w_dup2": dict(about="posix::dup2 pass-through", tags=["C05"]),
+    "w_pipe": dict(about="posix::pipe: two fresh descriptors of one new pipe, read end first, nothing leaked on failure", tags=["C05", "C07", "C08"]),
+    "w_fork_ids": dict(about="posix::fork/setuid/setgid/setpgid pass-through and result mapping", tags=["C06", "C07"]),
+    "w_make_standard_stream": dict(about="make_standard_stream: handle on fd 0/1/2 whose drop never closes the descriptor", tags=["C05"]),
+    "w_os_to_cstring_b4": dict(about="os_to_cstring: NUL => EINVAL, else bytes verbatim", bounded="strings of at most 4 bytes", tags=["C06"]),
+}
+KANI_TRUST = [
+    "libc model kani/libc_model.rs (fd table, one child, signal state, poll, exec log): replaces the foreign calls of src/posix.rs under cfg(kani)",
+    "posix::check_err is stubbed under Kani by an equivalent reading the model's errno (std's errno is a private foreign call); posix::fcntl (C-variadic) is stubbed by a model",
+    "<OwnedFd as Drop>::drop is stubbed by the model's close (Rust/std: dropping a File closes its descriptor)",
+]
